@@ -78,7 +78,8 @@ Definition rename_exact (c : cfgT) (f f' : fsT) (a n : bytes) : bool :=
 (* successful rebase: exactly that layer's parent changed *)
 Definition rebase_exact (c : cfgT) (f f' : fsT) (a b0 : bytes) : bool :=
   let cfa := pathjoin [layer_path c a; D_LayerconfigFile] in
-  forallb (fun e => if beq (fst e) cfa then true
+  (* a temporary file left by an interrupted earlier run is consumed by the rewrite *)
+  forallb (fun e => if beq (fst e) cfa || beq (fst e) (cfa ++ tmp_suffix) then true
                     else opt_beq node_beq (fs_get f' (fst e)) (Some (snd e))) f
   && forallb (fun e => exists_ f (fst e)) f'
   && match lfile_at f cfa, lfile_at f' cfa with
